@@ -159,6 +159,14 @@ public:
     void handleEvent(State&, Real, bool&) const override {}
 private: int qix; double q0;
 };
+// A reporter that does nothing: TimeStepper::stepTo(time) passes `time` to the integrator as report time *and* as
+// scheduled-event time, so the integrator never steps past it; only reports scheduled by the System itself let the
+// integrator advance beyond the report time and hand back *interpolated* report states.
+class NullReporter : public PeriodicEventReporter {
+public:
+    explicit NullReporter(double dt) : PeriodicEventReporter(dt) {}
+    void handleEvent(const State&) const override {}
+};
 class NullPeriodic : public PeriodicEventHandler {
 public:
     explicit NullPeriodic(double dt) : PeriodicEventHandler(dt) {}
@@ -171,6 +179,7 @@ struct Spec {
     std::vector<CSpec> cons;
     std::vector<MSpec> motions;
     Vector qref, u0;
+    double reportDt = 0;        // interval of the System-scheduled (null) periodic reporter, 0 = none
     int eventKind = 0;          // 0 none, 1 time trigger, 2 coordinate trigger, 3 periodic
     double evW = 0, evPh = 0, evDt = 0; int evQ = 0; double evQ0 = 0;
     std::string forceSet() const { std::vector<std::string> v; for (auto& f : forces) v.push_back(f.label()); std::sort(v.begin(), v.end()); std::string s; for (auto& x : v) { if (!s.empty()) s += '+'; s += x; } return s.empty() ? "none" : s; }
@@ -253,6 +262,7 @@ struct Built {
         for (auto& mo : sp.motions) addMotion(mo);
         if (withForces) for (size_t i = 0; i < sp.forces.size(); ++i) if ((int)i != dropF) addForce(sp.forces[i]);
         if (withCons) for (size_t i = 0; i < sp.cons.size(); ++i) if ((int)i != dropC) addConstraint(sp.cons[i]);
+        if (sp.reportDt > 0) m.sys.addEventReporter(new NullReporter(sp.reportDt));
         if (sp.eventKind == 1) m.sys.addEventHandler(new NullTimeTrigger(sp.evW, sp.evPh));
         else if (sp.eventKind == 2) m.sys.addEventHandler(new NullCoordTrigger(sp.evQ, sp.evQ0));
         else if (sp.eventKind == 3) m.sys.addEventHandler(new NullPeriodic(sp.evDt));
@@ -482,7 +492,7 @@ struct RunOpts {
     int integ = IK_RKM; double acc = 1e-3, consTol = -1, T = 1, hFixed = 0.01, hMin = 0;
     int projEvery = -1, projInterp = -1, infNorm = -1, allowInterp = -1, fullNewton = -1;
     bool returnEvery = true, finalTime = false; int stepMode = 0;   // 0 normal, 1 minimum step, 2 fixed step
-    int nReports = 20; long maxStates = 30000;
+    int nReports = 20, nTargets = 3; long maxStates = 30000;
     std::string optKey() const {
         std::string s;
         s += projEvery < 0 ? "pe-" : projEvery ? "pe1" : "pe0";
@@ -496,7 +506,7 @@ struct RunOpts {
     Json toJson() const {
         return Json::obj().set("integ", ikName(integ)).set("acc", acc).set("consTol", consTol).set("T", T).set("projEvery", projEvery).set("projInterp", projInterp)
             .set("infNorm", infNorm).set("allowInterp", allowInterp).set("fullNewton", fullNewton).set("returnEvery", returnEvery).set("finalTime", finalTime)
-            .set("stepMode", stepMode).set("hFixed", hFixed).set("hMin", hMin).set("nReports", nReports);
+            .set("stepMode", stepMode).set("hFixed", hFixed).set("hMin", hMin).set("nReports", nReports).set("nTargets", nTargets);
     }
 };
 enum SKind { SK_Start, SK_Step, SK_Report, SK_ReportInterp, SK_EventBefore, SK_EventAfter, SK_Scheduled, SK_StepLimit, SK_End, SK_Count };
@@ -526,7 +536,8 @@ template <class F> static RunResult simulate(Ctx& c, Built& b, const Spec& sp, c
     c.setPhase(std::string("initialize ") + ikName(o.integ));
     try { ts.initialize(s); }
     catch (const std::exception& e) { R.outcome = "InitializationFailed"; R.what = firstLine(e.what(), 300); return R; }
-    int rep = 1, stalled = 0, prevKind = -1; double tRep = o.T * rep / o.nReports;
+    // stepTo() targets: nTargets equally spaced times (the dense report grid comes from the System's periodic reporter)
+    int rep = 1, stalled = 0, prevKind = -1; double tRep = o.T * rep / o.nTargets;
     for (;;) {
         Integrator::SuccessfulStepStatus st;
         c.setPhase(std::string("stepTo ") + ikName(o.integ));
@@ -553,8 +564,8 @@ template <class F> static RunResult simulate(Ctx& c, Built& b, const Spec& sp, c
         if (st == Integrator::EndOfSimulation || integ->isSimulationOver()) break;
         if (R.nStates >= o.maxStates) { R.outcome = "state-budget"; break; }
         if (st == Integrator::ReachedReportTime && rs.getTime() >= tRep) {
-            if (rep >= o.nReports) break;
-            ++rep; tRep = (rep == o.nReports) ? o.T : o.T * rep / o.nReports;
+            if (rep >= o.nTargets) break;
+            ++rep; tRep = (rep == o.nTargets) ? o.T : o.T * rep / o.nTargets;
         }
         if (rs.getTime() >= o.T && st != Integrator::ReachedReportTime && !o.finalTime) break;
     }
@@ -703,7 +714,8 @@ static void checkC11(Ctx& c, long idx, Rng& r) {
     int dec = 3 + (int)((variant / 2) % (ikMaxDecade(integ, thorough) - 2));
     static const double mant[] = {1.0, 0.5, 0.2};
     { double mm = mant[r.integer(0, 2)]; o.acc = std::pow(10.0, -dec) * (dec >= 8 ? 1.0 : mm); }
-    o.T = r.uni(1.0, 2.5); o.nReports = r.integer(5, 40); o.returnEvery = true;
+    o.T = r.uni(1.0, 2.5); o.nReports = r.integer(5, 40); o.nTargets = r.integer(1, 4); o.returnEvery = true;
+    sp.reportDt = o.T / o.nReports;
     o.projEvery = r.coin(0.2) ? 1 : -1; o.finalTime = r.coin(0.3); o.maxStates = 4000;
     if (c.args.getNum("acc", 0) > 0) o.acc = c.args.getNum("acc", 0);
     (void)nb;
@@ -817,7 +829,8 @@ static void checkC21(Ctx& c, long idx, Rng& r) {
     int maxDec = std::min(7, ikMaxDecade(integ, c.args.tier == "thorough") + 1);
     int dec = 3 + (int)((variant / 2) % (maxDec - 2));
     o.acc = std::pow(10.0, -dec) * (r.coin() ? 1.0 : r.uni(0.2, 1.0));
-    o.T = r.uni(0.5, 1.5); o.nReports = r.integer(30, 150); o.returnEvery = r.coin(0.85);
+    o.T = r.uni(0.5, 1.5); o.nReports = r.integer(30, 150); o.nTargets = r.integer(1, 5); o.returnEvery = r.coin(0.85);
+    sp.reportDt = o.T / o.nReports;
     { int k = (variant / 4) % 3; o.projInterp = k == 0 ? -1 : k == 1 ? 1 : 0; }
     { int k = (variant / 12) % 3; o.projEvery = k == 0 ? -1 : k == 1 ? 1 : 0; }
     o.infNorm = r.coin(0.3) ? 1 : -1; o.allowInterp = r.coin(0.2) ? 0 : (r.coin(0.3) ? 1 : -1); o.fullNewton = r.coin(0.15) ? 1 : -1;
